@@ -97,6 +97,18 @@ impl ObjectWrite for CidToGidMap {
     }
 }
 
+impl FontData {
+    /// the keys of a font dictionary that the typed part of this variant reads.  `None`: the variant keeps the entries it
+    /// does not map itself (`CIDFont::_other`) or is the dictionary (`Other`)
+    fn mapped_keys(&self) -> Option<&'static [&'static str]> {
+        match self {
+            FontData::Type1(_) | FontData::TrueType(_) => Some(&["BaseFont", "FirstChar", "LastChar", "Widths", "FontDescriptor"]),
+            FontData::Type0(_) => Some(&["DescendantFonts", "ToUnicode"]),
+            _ => None
+        }
+    }
+}
+
 impl Object for Font {
     fn from_primitive(p: Primitive, resolve: &impl Resolve) -> Result<Self> {
         let mut dict = p.resolve(resolve)?.into_dictionary()?;
@@ -149,7 +161,17 @@ impl ObjectWrite for Font {
             FontData::Type0(ref d) => d.to_dict(update)?,
             FontData::Other(ref dict) => dict.clone(),
         };
-        
+
+        // entries that no typed field maps were kept in `_other` when the font was read: write them back.  The keys the
+        // typed part maps are written from the typed part only (`_other` holds their values as read, possibly stale)
+        if let Some(mapped) = self.data.mapped_keys() {
+            for (key, value) in self._other.iter() {
+                if !mapped.contains(&key.as_str()) && dict.get(key.as_str()).is_none() {
+                    dict.insert(key.clone(), value.clone());
+                }
+            }
+        }
+
         if let Some(ref to_unicode) = self.to_unicode {
             dict.insert("ToUnicode", to_unicode.to_primitive(update)?);
         }
